@@ -1050,6 +1050,10 @@ class Engine:
             if f.how == "bound":
                 yield from self.call_method(f.recv, f.name, args, kwargs, st, node)
                 return
+            if f.how == "closure":
+                # nested function: executed in a new frame that sees the defining frame's names
+                yield from self.inline(f.fs, args, kwargs, st, node, closure=f.closure)
+                return
         if isinstance(f, VClass):
             yield from self.models.construct(self, f, args, kwargs, st, node)
             return
@@ -1120,13 +1124,15 @@ class Engine:
             raise Untranslatable(f"unknown method {cls}.{name}", node)
         yield from self.models.method(self, recv, name, args, kwargs, st, node)
 
-    def inline(self, fs, args, kwargs, st, node=None):
+    def inline(self, fs, args, kwargs, st, node=None, closure=None):
         """Execute a repository function body in a new frame."""
         if fs.is_generator:
             raise Untranslatable(f"generator {fs.qualname} called outside a supported context", node)
         if len(self.func_stack) > self.max_depth:
             raise Untranslatable(f"inlining depth exceeded at {fs.qualname}", node)
         frame = self.bind_args(fs, args, kwargs, st, node)
+        if closure is not None:
+            frame["__closure__"] = closure
         st.frames.append(frame)
         self.func_stack.append(fs)
         sink = []
